@@ -111,7 +111,7 @@ func (it *implTracer) qTree() string {
 		}
 		s += fmt.Sprintf("call i=%s from=%s to=%s data=%s value=%s gas=%s parent=%s children=%s ret=%s rem=%s err=%s",
 			hexU64(c.Index), hexAddr(c.From), hexAddrP(c.To), hexBytes(data), hexNatU(c.Value), hexNatU(c.Gas), par,
-			listStr(ch), optBytes(c.Ret), hexU64(c.RemainingGas), errStr(c.Err))
+			listStr(ch), optBytes(c.Ret), hexU64(c.RemainingGas), ferr(c.Err))
 	}
 	return s
 }
@@ -434,7 +434,7 @@ func genTracerCase(r *Rng, em *Emitter, length int, al *tracerAlphabet) {
 				err = errors.New([]string{"out of gas", "execution reverted", "x"}[pick(3)])
 			}
 			it.t.ExitCall(g, ret, err)
-			em.Op("-", fmt.Sprintf("T exit %s %s %s", hexU64(g), optBytes(ret), errStr(err)), "ok")
+			em.Op("-", fmt.Sprintf("T exit %s %s %s", hexU64(g), optBytes(ret), ferr(err)), "ok")
 			if open > 0 {
 				open--
 				em.Count("exit")
